@@ -2,7 +2,7 @@
 from . import sesscheck as SC
 
 MODULE = "Props.C02"
-PROFILE = {"publish": 20, "ack": 12, "inbound": 2, "connect": 8, "fault": 6, "restart": 9, "call": 1, "response": 1,
+PROFILE = {"wrap": 0.15, "publish": 20, "ack": 12, "inbound": 2, "connect": 8, "fault": 6, "restart": 9, "call": 1, "response": 1,
            "hostile": 0.3, "close": 0.1, "bigbuf": 0.05}
 
 
